@@ -53,7 +53,9 @@ func (f *Flow) Solve() *Flow {
 			if b == fn.Blocks[0] {
 				in = f.Entry
 			} else if b == fn.Recover {
-				in = false
+				// the recover block is only entered after a recovered panic;
+				// panic paths are exits that need no discharge (DESIGN K3).
+				in = true
 			} else {
 				in = true
 				for _, p := range b.Preds {
